@@ -53,7 +53,7 @@ SeqSet(s) == IF s = <<>> THEN {} ELSE {Head(s)} \cup SeqSet(Tail(s))
 InitState ==
   /\ mem = EmptyFn /\ units = <<>> /\ rq = <<>> /\ used = EmptyFn /\ running = {}
   /\ stopped = FALSE /\ pend = {} /\ causes = {} /\ cancelOK = {} /\ hcanc = {}
-  /\ cbs = EmptyFn /\ notes = [open |-> 0, sent |-> 0, bp |-> 0] /\ waitRet = FALSE /\ rdDone = FALSE
+  /\ cbs = EmptyFn /\ notes = [open |-> 0, sent |-> 0, bp |-> 0, done |-> 0] /\ waitRet = FALSE /\ rdDone = FALSE
   /\ sendBad = FALSE /\ stopOpen = FALSE
 
 Init == l = 1 /\ conc = 1 /\ push = FALSE /\ InitState
@@ -445,10 +445,15 @@ NotifyE ==
   /\ Imp("C09", ~push => Ev.res = "unsupported")
   /\ Imp("C09", push => Ev.res # "unsupported")
   /\ Imp("C09", Ev.res = "connclosed" => stopped)
-  /\ Imp("C09", Ev.res = "ok" => notes.sent = notes.open)      \* exactly one request was transmitted
-  /\ Imp("C09", Ev.res \in {"unsupported", "connclosed"} => notes.sent < notes.open)  \* nothing was transmitted
+  \* (open: calls begun and not refused; sent: id-less requests handed to the channel; done: calls that returned after
+  \* handing one over.  Notify calls may overlap - two handlers pushing at once - so a return is matched with *a* request
+  \* not yet accounted for, not with the latest one.)
+  /\ Imp("C09", Ev.res \notin {"unsupported", "connclosed"} => notes.sent > notes.done)   \* exactly one request was transmitted for it
+  /\ Imp("C09", Ev.res \in {"unsupported", "connclosed"} => notes.sent < notes.open)      \* nothing was transmitted
   /\ Imp("C09", (push /\ ~stopped /\ ~sendBad) => Ev.res = "ok")
-  /\ notes' = IF notes.sent < notes.open THEN [notes EXCEPT !.open = @ - 1] ELSE notes
+  /\ notes' = IF Ev.res \in {"unsupported", "connclosed"}
+              THEN (IF notes.sent < notes.open THEN [notes EXCEPT !.open = @ - 1] ELSE notes)
+              ELSE (IF notes.sent > notes.done THEN [notes EXCEPT !.done = @ + 1] ELSE notes)
   /\ UNCHANGED <<conc, push, mem, units, rq, used, running, stopped, pend, causes, cancelOK, hcanc, cbs, waitRet, rdDone, sendBad, stopOpen>>
 
 CallbackB ==
@@ -543,7 +548,7 @@ Reset ==
   /\ conc' = Ev.conc /\ push' = Ev.push
   /\ mem' = EmptyFn /\ units' = <<>> /\ rq' = <<>> /\ used' = EmptyFn /\ running' = {}
   /\ stopped' = FALSE /\ pend' = {} /\ causes' = {} /\ cancelOK' = {} /\ hcanc' = {}
-  /\ cbs' = EmptyFn /\ notes' = [open |-> 0, sent |-> 0, bp |-> 0] /\ waitRet' = FALSE /\ rdDone' = FALSE
+  /\ cbs' = EmptyFn /\ notes' = [open |-> 0, sent |-> 0, bp |-> 0, done |-> 0] /\ waitRet' = FALSE /\ rdDone' = FALSE
   /\ sendBad' = FALSE /\ stopOpen' = FALSE
 
 Start ==   \* (re)start on a fresh channel: a new generation
@@ -552,7 +557,7 @@ Start ==   \* (re)start on a fresh channel: a new generation
   /\ mem' = EmptyFn /\ units' = <<>> /\ rq' = <<>> /\ used' = EmptyFn /\ running' = {}
   /\ stopped' = FALSE /\ pend' = {} /\ causes' = {} /\ cancelOK' = cancelOK \cap {"__base"} /\ hcanc' = {}   \* an ended base context stays ended
   /\ UNCHANGED cbs           \* a callback outstanding across a restart is still outstanding
-  /\ notes' = [open |-> 0, sent |-> 0, bp |-> 0] /\ waitRet' = FALSE /\ rdDone' = FALSE
+  /\ notes' = [open |-> 0, sent |-> 0, bp |-> 0, done |-> 0] /\ waitRet' = FALSE /\ rdDone' = FALSE
   /\ sendBad' = FALSE /\ stopOpen' = FALSE
   /\ UNCHANGED <<conc, push>>
 
